@@ -101,7 +101,7 @@ class Constant(ModelNode):
         def sub_(x, y):
             return x.replace(y, " ")
 
-        for symbol in six.reduce(sub_, "()+-", self.value).split():
+        for symbol in six.reduce(sub_, "()+-*/|<>", self.value).split():
             if not symbol.isdigit():
                 yield symbol
 
